@@ -655,6 +655,13 @@ def _len_model(an, f, st, t, c, argiv):
             proved = e[1] <= base[0]
             return {("#len",): e}, (proved, "slice-index", "..%s of len %s" % (e, base)), []
         if kind == "from":
+            # `x[x.len() - K ..]` with a checked subtraction: in bounds by construction, exactly K elements
+            rl = core.op_local(args[1])
+            rd = [d for d in f.defs_of(rl) if not f.blocks[d[0]]["cleanup"]] if rl is not None else []
+            if len(rd) == 1 and rd[0][1] != "term" and rd[0][2]["k"] == "assign" and rd[0][2]["rv"]["k"] == "aggregate" and rd[0][2]["rv"]["ops"]:
+                suf = _suffix_span(an, f, st, args[0], rd[0][2]["rv"]["ops"][0])
+                if suf is not None:
+                    return {("#len",): suf}, (True, "slice-index", "len - %s .. (checked subtraction)" % (suf,)), []
             proved = s_[1] <= base[0]
             return {("#len",): (max(base[0] - s_[1], 0), max(base[1] - s_[0], 0))}, (proved, "slice-index", "%s.. of len %s" % (s_, base)), []
         if kind == "range":
